@@ -9,7 +9,6 @@ use cgt_core::{
 use cgt_format::Formatter;
 use chrono::{Datelike, Local, NaiveDate};
 use rust_decimal::Decimal;
-use rust_decimal::prelude::ToPrimitive;
 use thiserror::Error;
 use typst::foundations::{Dict, IntoValue, Value};
 use typst_as_lib::TypstEngine;
@@ -23,7 +22,7 @@ static ROBOTO_BOLD: &[u8] = include_bytes!("../fonts/Roboto-Bold.ttf");
 
 #[derive(Debug, Error)]
 pub enum PdfError {
-    #[error("PDF generation failed: failed to convert Decimal to float")]
+    #[error("PDF generation failed: failed to convert Decimal for the template")]
     DecimalToFloat,
 
     #[error("PDF generation failed: Typst compilation failed: {0}")]
@@ -33,12 +32,15 @@ pub enum PdfError {
     PdfExport(String),
 }
 
-fn decimal_to_f64(value: Decimal) -> Result<f64, PdfError> {
-    value.to_f64().ok_or(PdfError::DecimalToFloat)
-}
-
+/// Pass a figure to the template as Typst's exact `decimal` type rather than a binary float, so
+/// that the template's `calc.round` rounds half-pence away from zero exactly as the text and JSON
+/// reports do (an `f64` image of e.g. 1.005 lies below the midpoint and was shown as 1.00).
 fn decimal_to_value(value: Decimal) -> Result<Value, PdfError> {
-    Ok(decimal_to_f64(value)?.into_value())
+    value
+        .to_string()
+        .parse::<typst::foundations::Decimal>()
+        .map(IntoValue::into_value)
+        .map_err(|_| PdfError::DecimalToFloat)
 }
 
 fn date_dict(date: NaiveDate) -> Dict {
